@@ -533,6 +533,18 @@ func (w *Whisper) fetchRawPoints(archiveID int, fromInterval, untilInterval Time
 
 	fromOffset := r.pointOffsetAt(r.pointIndex(baseInterval, fromInterval))
 	untilOffset := r.pointOffsetAt(r.pointIndex(baseInterval, untilInterval))
+
+	// The two offsets must span exactly the requested number of points.
+	// They do not when the base interval read from the file is damaged
+	// (e.g. 2^31 seconds away from the requested range).
+	span := int64(untilOffset) - int64(fromOffset)
+	if span <= 0 {
+		span += int64(r.numberOfPoints) * pointSize
+	}
+	if span != int64(len(points))*pointSize {
+		return nil, fmt.Errorf("corrupt archive: base interval %d does not fit the range from %d to %d", baseInterval, fromInterval, untilInterval)
+	}
+
 	if fromOffset < untilOffset {
 		i := 0
 		for off := fromOffset; off < untilOffset; off += pointSize {
